@@ -299,9 +299,23 @@ def razel_radec(c, rec):
 
     tgt = ecef2eci(np.concatenate([tgt_ecef, np.zeros(3)]), t)
     tgt[3:] = c["v"]
+    # every third case: an observer that moves in the Earth-fixed frame (space-based sensor above the same point)
+    moving = int(abs(c["rho"]) * 1e3) % 3 == 0
+    if moving:
+        obs = np.array(obs, dtype=float)
+        up = obs[:3] / np.linalg.norm(obs[:3])
+        obs[:3] += 800.0 * up
+        side = np.cross(up, [0.0, 0.0, 1.0]) if abs(up[2]) < 0.95 else np.cross(up, [1.0, 0.0, 0.0])
+        obs[3:] = 7.4 * side / np.linalg.norm(side) + 0.3 * up
+        tgt[:3] += 800.0 * up
+    rec.label("observer:moving" if moving else "observer:ground_site")
     bk = boundary_kind(t)
     rng, el, az, rr, elr, azr = eci2razel(tgt, obs, t)
-    r0, a0, e0 = geodesy.razel(eci2ecef(tgt, t)[:3] - eci2ecef(obs, t)[:3], c["lat"], c["lon"])
+    if moving:
+        lat_o, lon_o, _alt = geodesy.ecef2lla(eci2ecef(obs, t)[:3], a, e2)
+    else:
+        lat_o, lon_o = c["lat"], c["lon"]
+    r0, a0, e0 = geodesy.razel(eci2ecef(tgt, t)[:3] - eci2ecef(obs, t)[:3], lat_o, lon_o)
     if bk or az < 1e-3 or az > TWOPI - 1e-3 or el > PI / 2 - 1e-3:
         rec.nontrivial([t.date().isoformat(), bk, round(az, 2), round(el, 2)])
     def _dir(az_, el_):
@@ -322,6 +336,20 @@ def razel_radec(c, rec):
         raise Violation("radec_roundtrip", f"radec2razel(razel2radec(x)) = {back[:3]} vs {(rng, el, az)} at {c['t']}")
     if abs(back[3] - rr) > 1e-8:
         raise Violation("radec_roundtrip_rate", f"range rate {back[3]!r} vs {rr!r}")
+    if math.cos(el) > 1e-2:
+        if abs(back[4] - elr) > 1e-9 + 1e-7 * abs(elr) or abs(back[5] - azr) * math.cos(el) > 1e-9 + 1e-7 * abs(azr):
+            raise Violation("radec_roundtrip_rate", f"angular rates do not survive razel->radec->razel: ({back[4]!r},{back[5]!r}) vs ({elr!r},{azr!r}) (observer {'moving' if moving else 'ground site'})")
+    # the rates of right ascension / declination are the time derivatives of the spherical angles of the inertial offset
+    x, y, z = rel[:3]
+    vx, vy, vz = rel[3:]
+    rho_ = float(np.linalg.norm(rel[:3]))
+    rxy2 = x * x + y * y
+    # (at the zenith the azimuth/elevation rates the chain starts from are not defined, at the celestial pole ra' is not)
+    if rxy2 > 1e-6 * rho_ * rho_ and math.cos(el) > 1e-2:
+        ra_dot = (x * vy - y * vx) / rxy2
+        dec_dot = (vz - z * rr_ref / rho_) / math.sqrt(rxy2)
+        if abs(radec[3] - rr_ref) > 1e-8 or abs(radec[4] - dec_dot) > 1e-9 + 1e-7 * abs(dec_dot) or abs(radec[5] - ra_dot) * math.sqrt(rxy2) / rho_ > 1e-9 + 1e-7 * abs(ra_dot):
+            raise Violation("radec_rates", f"razel2radec rates (rho', dec', ra') = {tuple(float(v_) for v_ in radec[3:])}, time derivative of the inertial offset gives ({rr_ref!r}, {dec_dot!r}, {ra_dot!r}) (observer {'moving' if moving else 'ground site'})")
     # right ascension / declination are the spherical angles of the inertial offset
     dec_ref = math.asin(rel[2] / np.linalg.norm(rel[:3]))
     ra_ref = math.atan2(rel[1], rel[0]) % TWOPI
@@ -424,7 +452,7 @@ def _cont_cases():
                 continue
             if lo < dd < hi:
                 specials.append(dd)
-    return st.builds(mk, st.integers(1, ndays - 1), st.sampled_from(["day", "day", "day", "minute", "hour", "inside"]),
+    return st.builds(mk, st.integers(1, ndays - 1), st.sampled_from(["day", "day", "day", "minute", "hour", "inside", "tt_day", "tai_day", "ut1_day"]),
                      st.sampled_from([1, 1000, 60000]), st.sampled_from([0.5, 0.0, 1.0, 0.25]),
                      st.one_of(st.none(), st.none(), st.sampled_from(specials)))
 
@@ -435,6 +463,11 @@ def continuity(c, rec):
     from resonaate.physics.transforms.eops import getEarthOrientationParameters
 
     b = datetime.fromisoformat(c["boundary"])
+    if c["kind"] in ("tt_day", "tai_day", "ut1_day"):
+        # the instants at which the *other* time scales used inside the reduction (terrestrial, atomic, UT1) cross midnight
+        e_prev = getEarthOrientationParameters((b - timedelta(days=1)).date())
+        off = {"tt_day": e_prev.delta_atomic_time + 32.184, "tai_day": float(e_prev.delta_atomic_time), "ut1_day": -e_prev.delta_ut1}[c["kind"]]
+        b = b - timedelta(seconds=off)
     delta = timedelta(milliseconds=c["delta_ms"])
     t0 = b - delta * c["frac"]
     t1 = t0 + delta
@@ -462,7 +495,14 @@ def continuity(c, rec):
     if (t1.date() in LEAP_SECOND_DATES) != (t0.date() in LEAP_SECOND_DATES) and not leap:
         rec.label("leap_date_not_in_table")
     rec.err("continuity_rad:" + kind, err)
-    if err > 1e-6:
+    # Two legitimate sources of a step: the daily Earth-orientation table (<= 1e-7 rad at 00:00 UTC), and a sawtooth of up to 2e-7 rad
+    # within every second (the sidereal-minus-solar part of the rotation angle is advanced in whole seconds) which cancels when both
+    # ends of the window have the same fraction of a second.  Windows free of both are continuous to 1e-12 rad on the unchanged tree.
+    same_fraction = (delta.total_seconds() * 1e3) % 1000 == 0
+    within_second = t0.replace(microsecond=0) == t1.replace(microsecond=0)
+    quiet = (same_fraction or within_second) and t0.date() == t1.date()
+    rec.label("window:quiet" if quiet else "window:eop_or_subsecond_step")
+    if err > (5e-8 if quiet else 5e-7):
         raise Violation("discontinuity", f"R({t0.isoformat()}) -> R(+{d_s}s) rotates by {ang!r} rad, Earth rotation gives {expect!r} (diff {err:.3e}) [{kind}]")
     # rotation axis is (almost) the ECI z axis and the sense is eastward: ECEF x-axis moves towards +y in ECI
     xa, xb = qa.T[:, 0], qb.T[:, 0]
